@@ -245,28 +245,23 @@ Proof.
   induction ps as [|[name d] r IH]; intros b nm Hnd Hb Hget; [reflexivity|].
   cbn [bind_rest_params zipspec names map fst remove_keys fold_left].
   inversion Hnd as [|x l Hnotin Hnd' Heq]; subst.
-  pose proof (n_remove_fst nm (norm name)) as RF.
-  destruct (n_remove nm (norm name)) as [o nm'] eqn:ER. cbn in RF. subst o.
-  rewrite (Hget (name, d) (or_introl eq_refl)). cbn [fst]. rewrite <- get_name_nmap.
+  pose proof (Hget (name, d) (or_introl eq_refl)) as HG. cbn [fst] in HG. rewrite <- get_name_nmap in HG.
   assert (Hrest : forall nm2, (forall k', k' <> norm name -> n_get nm2 k' = n_get nm k') ->
                   forall p, In p r -> n_get nm2 (norm (fst p)) = n_get (nmap N) (norm (fst p))).
   { intros nm2 H2 p Hp. rewrite H2; [apply Hget; right; exact Hp|].
     intros E. apply Hnotin. unfold names. rewrite <- E. apply in_map_iff. exists p. auto. }
+  destruct (n_remove nm (norm name)) as [o nm'] eqn:ER.
+  assert (Eo : o = n_get nm (norm name)) by (rewrite <- n_remove_fst, ER; reflexivity).
+  assert (Enm : nm' = snd (n_remove nm (norm name))) by (rewrite ER; reflexivity).
+  cbn [snd]. rewrite Eo, HG. unfold bind1 in *.
   destruct (get_name N name) as [v|] eqn:EG.
-  - rewrite (IH (b ++ [bind1 name v]) nm' Hnd' (keys_norm_snoc _ _ _ Hb)).
-    + change nm' with (snd (Some v, nm')). rewrite <- ER. reflexivity.
-    + apply Hrest. intros k' Hk. change nm' with (snd (n_get nm (norm name), nm')).
-      assert (E2 : nm' = snd (n_remove nm (norm name))) by (rewrite ER; reflexivity).
-      rewrite E2. apply n_remove_other. congruence.
-  - assert (EN : n_get nm (norm name) = None).
-    { rewrite (Hget (name, d) (or_introl eq_refl)). cbn [fst]. rewrite <- get_name_nmap. exact EG. }
-    assert (E2 : nm' = nm).
-    { pose proof (n_remove_absent nm (norm name) EN) as A. rewrite ER in A. exact A. }
-    subst nm'. destruct d as [d|]; [|reflexivity].
+  - rewrite (IH (b ++ [(norm name, v)]) nm' Hnd' (keys_norm_snoc _ name v Hb)); [reflexivity|].
+    apply Hrest. intros k' Hk. rewrite Enm. apply n_remove_other. congruence.
+  - assert (E2 : nm' = nm) by (rewrite Enm; apply n_remove_absent; exact HG).
+    rewrite E2. destruct d as [d|]; [|reflexivity].
     rewrite (default_same b d Hb). destruct (spec_default b d) as [v|]; [|reflexivity].
-    rewrite (IH (b ++ [bind1 name v]) nm Hnd' (keys_norm_snoc _ _ _ Hb)).
-    + pose proof (n_remove_absent nm (norm name) EN) as A. rewrite A. reflexivity.
-    + apply Hrest. intros; reflexivity.
+    rewrite (IH (b ++ [(norm name, v)]) nm Hnd' (keys_norm_snoc _ name v Hb)); [reflexivity|].
+    apply Hrest. intros; reflexivity.
 Qed.
 
 Lemma NoDup_skipn {A} (l : list A) : forall n, NoDup l -> NoDup (skipn n l).
@@ -287,4 +282,258 @@ Proof.
     + cbn [zipbind length skipn]. apply named_phase; auto.
     + cbn [zipbind zipspec length skipn]. inversion Hnd; subst.
       apply IH; [assumption | apply keys_norm_snoc; exact Hb].
+Qed.
+
+(* ------------------------------------------------------------------ the left-over keywords *)
+Fixpoint dup_keys (m : named) : bool :=
+  match m with [] => false | (k, _) :: r => has_key r k || dup_keys r end.
+Lemma dup_keys_nmap N : dup_keys (nmap N) = dup_names N.
+Proof.
+  induction N as [|[k v] r IH]; [reflexivity|]. cbn [nmap map dup_keys dup_names fst snd].
+  fold (nmap r). rewrite IH, has_name_nmap. reflexivity.
+Qed.
+
+Definition key_ne (k : string) (kv : string * value) : bool := negb (String.eqb (fst kv) k).
+Definition key_notin (ks : list string) (kv : string * value) : bool :=
+  negb (existsb (String.eqb (fst kv)) ks).
+
+Lemma filter_absent m k : has_key m k = false -> filter (key_ne k) m = m.
+Proof.
+  induction m as [|[k' w] r IH]; [reflexivity|]. cbn. unfold key_ne at 1. cbn [fst].
+  rewrite (String.eqb_sym k' k). destruct (String.eqb k k'); cbn; [discriminate|].
+  intros H. rewrite (IH H). reflexivity.
+Qed.
+Lemma remove_one m k : dup_keys m = false -> snd (n_remove m k) = filter (key_ne k) m.
+Proof.
+  induction m as [|[k' w] r IH]; [reflexivity|]. cbn [dup_keys n_remove filter]. intros H.
+  apply orb_false_iff in H. destruct H as [H1 H2]. unfold key_ne at 1. cbn [fst].
+  rewrite (String.eqb_sym k' k). destruct (String.eqb k k') eqn:E; cbn [negb snd].
+  - apply String.eqb_eq in E. subst k'. rewrite (filter_absent r k H1). reflexivity.
+  - specialize (IH H2). destruct (n_remove r k) as [o r']. cbn [snd] in *. rewrite IH. reflexivity.
+Qed.
+Lemma has_key_filter m f k : has_key m k = false -> has_key (filter f m) k = false.
+Proof.
+  induction m as [|[k' w] r IH]; [reflexivity|]. cbn. intros H. apply orb_false_iff in H. destruct H as [H1 H2].
+  destruct (f (k', w)); cbn; [rewrite H1; cbn|]; apply IH; exact H2.
+Qed.
+Lemma dup_keys_filter m f : dup_keys m = false -> dup_keys (filter f m) = false.
+Proof.
+  induction m as [|[k' w] r IH]; [reflexivity|]. cbn. intros H. apply orb_false_iff in H. destruct H as [H1 H2].
+  destruct (f (k', w)); cbn; [rewrite (has_key_filter r f k' H1); cbn|]; apply IH; exact H2.
+Qed.
+Lemma remove_keys_filter ks : forall m, dup_keys m = false -> remove_keys ks m = filter (key_notin ks) m.
+Proof.
+  induction ks as [|k ks IH]; intros m H; cbn [remove_keys fold_left].
+  - unfold key_notin. cbn. induction m as [|x m IHm]; [reflexivity|]. cbn. f_equal. apply IHm.
+    destruct x. cbn in H. apply orb_false_iff in H. tauto.
+  - fold (remove_keys ks (snd (n_remove m k))). rewrite (remove_one m k H).
+    rewrite (IH _ (dup_keys_filter m (key_ne k) H)).
+    clear. induction m as [|x m IHm]; [reflexivity|]. cbn [filter].
+    unfold key_ne at 1 3, key_notin at 2. cbn [existsb].
+    destruct (String.eqb (fst x) k) eqn:E; cbn [negb orb andb].
+    + exact IHm.
+    + cbn [filter]. unfold key_notin at 1. destruct (existsb (String.eqb (fst x)) ks); cbn [negb]; rewrite IHm; reflexivity.
+Qed.
+
+Lemma filter_nmap (f : string * value -> bool) (f' : string * value -> bool) N :
+  (forall kv, In kv N -> f kv = f' (norm (fst kv), snd kv)) -> nmap (filter f N) = filter f' (nmap N).
+Proof.
+  induction N as [|kv r IH]; intros H; [reflexivity|]. cbn [filter nmap map].
+  rewrite <- (H kv (or_introl eq_refl)). destruct (f kv); cbn [map]; fold (nmap r) (nmap (filter f r));
+  rewrite IH; auto; intros; apply H; right; assumption.
+Qed.
+
+Lemma is_param_names ps k : is_param ps k = existsb (String.eqb (norm k)) (names ps).
+Proof.
+  unfold is_param, names. induction ps as [|p r IH]; [reflexivity|]. cbn. rewrite IH. unfold same_name.
+  rewrite (String.eqb_sym (norm (fst p)) (norm k)). reflexivity.
+Qed.
+
+Lemma has_name_false_in N p : has_name N p = false -> forall kv, In kv N -> String.eqb (norm (fst kv)) (norm p) = false.
+Proof.
+  induction N as [|[k v] r IH]; intros H kv Hi; [destruct Hi|]. cbn in H. apply orb_false_iff in H. destruct H as [H1 H2].
+  destruct Hi as [Hi|Hi]; [subst kv; cbn; unfold same_name in H1; rewrite String.eqb_sym; exact H1 | exact (IH H2 kv Hi)].
+Qed.
+
+(* with no keyword naming a positionally bound parameter, what FormalArgs::eval leaves over
+   is exactly the keywords that name no parameter *)
+Lemma leftover N ps t :
+  dup_names N = false ->
+  existsb (fun p => has_name N (fst p)) (firstn t ps) = false ->
+  remove_keys (names (skipn t ps)) (nmap N) =
+  nmap (filter (fun kv => negb (is_param ps (fst kv))) N).
+Proof.
+  intros Hd Hb. rewrite remove_keys_filter by (rewrite dup_keys_nmap; exact Hd).
+  symmetry. apply filter_nmap. intros kv Hi. unfold key_notin. cbn [fst]. f_equal.
+  rewrite is_param_names. rewrite <- (firstn_skipn t ps) at 1. unfold names at 1. rewrite map_app.
+  fold (names (firstn t ps)) (names (skipn t ps)). rewrite existsb_app.
+  assert (E : existsb (String.eqb (norm (fst kv))) (names (firstn t ps)) = false).
+  { clear - Hb Hi. induction (firstn t ps) as [|p r IH]; [reflexivity|]. cbn in *.
+    apply orb_false_iff in Hb. destruct Hb as [H1 H2]. rewrite (has_name_false_in N (fst p) H1 kv Hi). cbn. apply IH. exact H2. }
+  rewrite E. reflexivity.
+Qed.
+
+(* a keyword naming a positionally bound parameter is never consumed *)
+Lemma both_survives N ps t :
+  NoDup (names ps) -> dup_names N = false ->
+  existsb (fun p => has_name N (fst p)) (firstn t ps) = true ->
+  remove_keys (names (skipn t ps)) (nmap N) <> [].
+Proof.
+  intros Hnd Hd Hb. rewrite remove_keys_filter by (rewrite dup_keys_nmap; exact Hd).
+  apply existsb_exists in Hb. destruct Hb as [p [Hp Hn]].
+  assert (Hex : exists kv, In kv (nmap N) /\ fst kv = norm (fst p)).
+  { clear - Hn. induction N as [|[k v] r IH]; [discriminate|]. cbn in Hn. apply orb_true_iff in Hn. destruct Hn as [H|H].
+    - exists (norm k, v). split; [left; reflexivity|]. cbn. unfold same_name in H. apply String.eqb_eq in H. auto.
+    - destruct (IH H) as [kv [Hi E]]. exists kv. split; [right; exact Hi | exact E]. }
+  destruct Hex as [kv [Hi E]].
+  assert (Hk : key_notin (names (skipn t ps)) kv = true).
+  { unfold key_notin. rewrite E. apply negb_true_iff. apply not_true_is_false. intros H.
+    apply existsb_exists in H. destruct H as [x [Hx Ex]]. apply String.eqb_eq in Ex. subst x.
+    rewrite <- (firstn_skipn t ps) in Hnd. unfold names in Hnd. rewrite map_app in Hnd.
+    assert (In (norm (fst p)) (map (fun p => norm (fst p)) (firstn t ps))) by (apply in_map_iff; exists p; auto).
+    clear - Hnd H Hx. induction (map (fun p => norm (fst p)) (firstn t ps)) as [|y l IH]; [destruct H|].
+    cbn in Hnd. inversion Hnd; subst. destruct H as [H|H].
+    - subst y. apply H2. apply in_or_app. right. exact Hx.
+    - apply IH; assumption. }
+  intros Hnil. assert (In kv (filter (key_notin (names (skipn t ps))) (nmap N))) by (apply filter_In; auto).
+  rewrite Hnil in H. destruct H.
+Qed.
+
+Lemma dup_names_prefix l m : dup_names l = true -> dup_names (l ++ m) = true.
+Proof.
+  induction l as [|[k v] r IH]; [discriminate|]. cbn. intros H. apply orb_true_iff in H. destruct H as [H|H].
+  - assert (has_name (r ++ m) k = true).
+    { clear - H. induction r as [|[k' v'] r IH]; [discriminate|]. cbn in *. apply orb_true_iff in H. destruct H as [H|H];
+      [rewrite H; reflexivity | rewrite (IH H); apply orb_true_r]. }
+    rewrite H0. reflexivity.
+  - rewrite (IH H). apply orb_true_r.
+Qed.
+
+(* ------------------------------------------------------------------ the main theorem *)
+Theorem bind_main s c :
+  sig_wf s -> known_K1 s c = false -> known_K2 c = false -> known_K3 s c = false ->
+  model_bind s c = spec_bind s c.
+Proof.
+  intros Hwf K1 K2 K3. unfold known_K3 in K3. unfold model_bind in *. unfold spec_bind.
+  destruct (dup_names (c_named c)) eqn:DE.
+  { rewrite (call_evaluate_dup c DE). unfold all_named. rewrite (dup_names_prefix _ _ DE). reflexivity. }
+  unfold known_K2 in K2. rewrite DE in K2. cbn [negb andb] in K2.
+  rewrite (call_evaluate_nodup c K2) in *. rewrite K2.
+  set (P := all_positional c) in *. set (N := all_named c) in *.
+  unfold formal_eval in *. rewrite nmap_length in *.
+  destruct ((match s_rest s with None => true | Some _ => false end) && (length (s_params s) <? length P + length N)%nat);
+    [reflexivity|].
+  pose proof (zipbind_model (s_params s) P [] (nmap N)) as ZM. cbn [app] in ZM. rewrite ZM in *. clear ZM.
+  rewrite (zip_phase N (s_params s) P [] Hwf) in * by (intros kv []).
+  rewrite zipspec_spec. cbn [skipn].
+  destruct (existsb (fun p => has_name N (fst p)) (firstn (length P) (s_params s))) eqn:EB.
+  - (* passed both by position and by name *)
+    destruct (s_rest s) as [r|] eqn:ER.
+    + unfold known_K1 in K1. rewrite ER in K1. fold P N in K1. congruence.
+    + destruct (zipspec (s_params s) P N []) as [b'|]; cbn [option_map]; [|reflexivity].
+      pose proof (both_survives N (s_params s) (length P) Hwf K2 EB) as NE.
+      destruct (remove_keys (names (skipn (length P) (s_params s))) (nmap N)); [congruence | reflexivity].
+  - rewrite (leftover N (s_params s) (length P) K2 EB) in *.
+    destruct (zipspec (s_params s) P N []) as [b'|]; cbn [option_map] in *; [|reflexivity].
+    set (L := nmap (filter (fun kv => negb (is_param (s_params s) (fst kv))) N)) in *.
+    destruct (s_rest s) as [r|]; [|reflexivity].
+    destruct (skipn (length (s_params s)) P) as [|x xs]; [|reflexivity].
+    change (map (fun kv : string * value => (norm (fst kv), snd kv))
+              (filter (fun kv : string * value => negb (is_param (s_params s) (fst kv))) N)) with L.
+    clearbody L. destruct L as [|[k v] [|y ys]]; try reflexivity.
+    destruct (String.eqb k (norm r)); [discriminate | reflexivity].
+Qed.
+
+(* ------------------------------------------------------------------ refuted witnesses, errors, first @return *)
+Definition sig1 (rest : option string) : sigT := mkSig [("a", None)] rest.
+Lemma refuted_both : let c := mkCall [VInt 1] [("a", VInt 2)] None None in
+  known_K1 (sig1 (Some "r")) c = true /\ model_bind (sig1 (Some "r")) c <> spec_bind (sig1 (Some "r")) c.
+Proof. split; [reflexivity | vm_compute; discriminate]. Qed.
+Lemma refuted_splat_dup : let s := mkSig [("a", None); ("b", Some (DLit (VInt 0)))] None in
+  let c := mkCall [] [("a", VInt 1)] None (Some [("a", VInt 5)]) in
+  known_K2 c = true /\ model_bind s c <> spec_bind s c.
+Proof. split; [reflexivity | vm_compute; discriminate]. Qed.
+Lemma refuted_only_named : let c := mkCall [VInt 1] [("r", VInt 2)] None None in
+  known_K3 (sig1 (Some "r")) c = true /\ model_bind (sig1 (Some "r")) c <> spec_bind (sig1 (Some "r")) c.
+Proof. split; [reflexivity | vm_compute; discriminate]. Qed.
+
+(* errors *)
+Lemma too_many s pos nm : s_rest s = None -> (length (s_params s) < length pos + length nm)%nat ->
+  formal_eval s pos nm = BErr.
+Proof.
+  intros Hr Hl. unfold formal_eval. rewrite Hr. apply Nat.ltb_lt in Hl. rewrite Hl. reflexivity.
+Qed.
+
+Lemma missing name r b nm : n_get nm (norm name) = None -> bind_rest_params ((name, None) :: r) b nm = None.
+Proof.
+  intros H. cbn [bind_rest_params]. pose proof (n_remove_fst nm (norm name)) as F.
+  destruct (n_remove nm (norm name)) as [o nm']. cbn in F. subst o. rewrite H. reflexivity.
+Qed.
+
+Lemma positional s pos : length pos = length (s_params s) ->
+  formal_eval s pos [] =
+  BOk (map (fun pv => (norm (fst (fst pv)), snd pv)) (combine (s_params s) pos))
+      (match s_rest s with Some _ => Some (RArgs [] []) | None => None end).
+Proof.
+  intros H. unfold formal_eval. cbn [length]. rewrite Nat.add_0_r, H, Nat.ltb_irrefl, andb_false_r.
+  rewrite <- H, firstn_all, skipn_all. rewrite H, skipn_all. cbn [bind_rest_params].
+  destruct (s_rest s); reflexivity.
+Qed.
+
+Lemma no_rest_no_K3 s c : s_rest s = None -> known_K3 s c = false.
+Proof.
+  intros Hr. unfold known_K3, model_bind. destruct (call_evaluate c) as [[pos nm]|]; [|reflexivity].
+  unfold formal_eval. rewrite Hr. destruct (_ && _); [reflexivity|].
+  destruct (bind_rest_params _ _ _) as [[b' nm']|]; [|reflexivity]. destruct nm'; reflexivity.
+Qed.
+
+Lemma unknown_named s c :
+  sig_wf s -> s_rest s = None -> known_K2 c = false ->
+  (exists kv, In kv (all_named c) /\ is_param (s_params s) (fst kv) = false) ->
+  model_bind s c = BErr.
+Proof.
+  intros Hwf Hr K2 [kv [Hi Hp]].
+  assert (K1 : known_K1 s c = false) by (unfold known_K1; rewrite Hr; reflexivity).
+  rewrite (bind_main s c Hwf K1 K2 (no_rest_no_K3 s c Hr)).
+  unfold spec_bind. rewrite Hr. destruct (dup_names (all_named c)); [reflexivity|].
+  destruct (_ && _); [reflexivity|]. destruct (existsb _ _); [reflexivity|].
+  destruct (spec_params _ _ _ _ _); [|reflexivity].
+  assert (In kv (filter (fun kv => negb (is_param (s_params s) (fst kv))) (all_named c)))
+    by (apply filter_In; rewrite Hp; auto).
+  destruct (filter _ (all_named c)) as [|x0 l0]; [destruct H | reflexivity].
+Qed.
+
+Lemma norm_dash (a b : string) :
+  norm (String.append a (String "-"%char b)) = norm (String.append a (String "_"%char b)).
+Proof. induction a as [|c r IH]; [reflexivity|]. cbn. rewrite IH. reflexivity. Qed.
+
+(* first @return *)
+Definition is_ret (s : fstmt) : bool := match s with FRet _ => true | _ => false end.
+Definition first_ret_of (l : list fstmt) : option value :=
+  match find is_ret l with Some (FRet v) => Some v | _ => None end.
+Lemma first_ret_app a b :
+  first_ret_of (a ++ b) = match first_ret_of a with Some v => Some v | None => first_ret_of b end.
+Proof.
+  unfold first_ret_of. induction a as [|x a IH]; [reflexivity|]. cbn [app find].
+  destruct (is_ret x) eqn:E; [destruct x; try discriminate; reflexivity | exact IH].
+Qed.
+
+Lemma ret_flatten : forall s, ret_eval s = first_ret_of (flatten s).
+Proof.
+  fix IH 1. intros [|v|c t e]; [reflexivity | reflexivity |].
+  cbn [ret_eval flatten].
+  assert (L : forall l,
+    (fix go (l : list fstmt) : option value :=
+       match l with [] => None | x :: r => match ret_eval x with Some v => Some v | None => go r end end) l
+    = first_ret_of ((fix go (l : list fstmt) : list fstmt :=
+                       match l with [] => [] | x :: r => flatten x ++ go r end) l)).
+  { induction l as [|x r IHr]; [reflexivity|]. rewrite first_ret_app, <- IH, IHr. reflexivity. }
+  destruct c; cbn [is_true]; apply L.
+Qed.
+
+Lemma first_return_ok l : body_eval l = first_return l.
+Proof.
+  unfold first_return. change (body_eval l = first_ret_of (flatten_body l)).
+  induction l as [|x r IH]; [reflexivity|]. cbn [body_eval flatten_body].
+  rewrite first_ret_app, <- ret_flatten, IH. reflexivity.
 Qed.
